@@ -4,7 +4,8 @@ EXTENDS LinkedLimits, Json, Sequences
 CONSTANTS Depth,
           PV,         \* values written to p
           MinV, MaxV, \* values written to p_min / p_max
-          Pairs       \* p_limits is written with the pairs <<a, b>> given as two-digit codes 10*a + b
+          Pairs,      \* p_limits is written with the pairs <<a, b>> given as two-digit codes 10*a + b
+          APairs      \* pairs the driver assigns to p_limits (self.p_limits = ...)
 VARIABLE hist
 
 Obs == [lo |-> lo', hi |-> hi', val |-> val', last |-> last']
@@ -16,7 +17,10 @@ GInit == /\ LInit
 GNext == \/ \E v \in PV : WriteP(v) /\ Rec([act |-> "p", v |-> v])
          \/ \E v \in MinV : SetMin(v) /\ Rec([act |-> "min", v |-> v])
          \/ \E v \in MaxV : SetMax(v) /\ Rec([act |-> "max", v |-> v])
-         \/ \E c \in Pairs : SetLimits(c \div 10, c % 10) /\ Rec([act |-> "limits", a |-> c \div 10, b |-> c % 10])
+         \/ \E c \in Pairs : SetLimits(c \div 10, c % 10, TRUE)
+                             /\ Rec([act |-> "limits", a |-> c \div 10, b |-> c % 10, how |-> "write"])
+         \/ \E c \in APairs : SetLimits(c \div 10, c % 10, FALSE)
+                             /\ Rec([act |-> "limits", a |-> c \div 10, b |-> c % 10, how |-> "assign"])
 GSpec == GInit /\ [][GNext]_<<lvars, hist>>
 
 Bound == TLCGet("level") <= Depth
